@@ -324,7 +324,8 @@ def rule_container_recursion(ctx: Ctx, repo: Repo) -> None:
     fi = repo.method(ci, "_rewrite_container")
     ctx.functions.add(fi.fq)
     ps = fi.positional_params()
-    for origin, args in (("List", (RW.INT,)), ("Dict", (RW.STR, RW.INT)), ("Tuple", (RW.INT, RW.STR, RW.INT)), ("Tuple", ()), ("DefaultDict", (RW.STR, g("List", RW.INT)))):
+    for origin, args in (("List", (RW.INT,)), ("Dict", (RW.STR, RW.INT)), ("Tuple", (RW.INT, RW.STR, RW.INT)), ("Tuple", ()), ("DefaultDict", (RW.STR, g("List", RW.INT))),
+                         ("Tuple", (RW.INT, RW.ELL))):  # Tuple[int, ...] (what RewriteLargeUnion makes of many tuples): the `...` is an argument like any other
         t = g(origin, *args)
         sc = RewriterScenario(repo, "TypeRewriter", "_rewrite_container", {})
         base = sc.call_hook
